@@ -61,10 +61,16 @@ func (m MIDIWriter) Write(w midix.Writer, instances []op.Instance) error {
 		args.writeWhenUpdated(w)
 
 		// the exact sum: a float64 sum near half a tick is rounded to the wrong side
-		value := new(big.Rat)
+		// (numerator and denominator are accumulated without reducing them at every
+		// step, which takes cubic time for thousands of values with large denominators)
+		num, den := new(big.Int), big.NewInt(1)
 		for _, v := range instance.Values {
-			value.Add(value, v.Big())
+			x := v.Big()
+			num.Mul(num, x.Denom())
+			num.Add(num, new(big.Int).Mul(x.Num(), den))
+			den.Mul(den, x.Denom())
 		}
+		value := new(big.Rat).SetFrac(num, den)
 
 		if instance.IsRest() {
 			w.RestExact(value)
